@@ -150,6 +150,21 @@ def gen_board(rng, k, fancy=True, kind=None, id_pool=None):
             'calls': calls, 'plays': plays, 'kind': kind}
 
 
+def mirror_board(rng, prev, new_id, fancy=True):
+    """the previous board turned one seat clockwise: every hand, the dealer, every call and every card move to the next
+    seat; the vulnerability stays.  Same contract, same number of tricks, declared by the OTHER side — so under a one-sided
+    vulnerability the score must differ (seeded change C08e-2: a score cache keyed by the board's vulnerability instead of
+    declarer's)"""
+    rot = lambda seat: SEATS[(SEATS.index(seat) + 1) % 4]
+    deal = [prev['deal'][(i - 1) % 4] for i in range(4)]
+    dealer = rot(prev['dealer'])
+    dealer_i = SEATS.index(dealer)
+    calls = [(c, call_text(rng, SEATS[(dealer_i + j) % 4], c, fancy)) for j, (c, _) in enumerate(prev['calls'])]
+    plays = [(c, card_text(rng, rot(seat), c, fancy), rot(seat)) for c, _, seat in prev['plays']]
+    return {'id': new_id(), 'dealer': dealer, 'vul': prev['vul'], 'deal': [list(h) for h in deal], 'dda': None,
+            'calls': calls, 'plays': plays, 'kind': 'mirror'}
+
+
 def gen_scenario(rng, n_boards, fancy=True, kinds=None):
     ids = set()
 
@@ -159,7 +174,21 @@ def gen_scenario(rng, n_boards, fancy=True, kinds=None):
             if s not in ids:
                 ids.add(s)
                 return s
-    boards = [gen_board(rng, k, fancy, (kinds or [None] * n_boards)[k], new_id) for k in range(n_boards)]
+    kinds = list(kinds or [None] * n_boards)
+    boards = []
+    for k in range(n_boards):
+        if kinds[k] == 'mirror' and boards and boards[-1]['plays']:
+            boards.append(mirror_board(rng, boards[-1], new_id, fancy))
+            continue
+        want_played = k + 1 < n_boards and kinds[k + 1] == 'mirror'
+        b = gen_board(rng, k, fancy, None if kinds[k] == 'mirror' else kinds[k], new_id)
+        for _ in range(30):
+            if not want_played or b['plays']:
+                break
+            b = gen_board(rng, k, fancy, None, lambda: b['id'])
+        if want_played:
+            b['vul'] = rng.choice(['NS', 'EW'])      # one side vulnerable: the mirrored board must score differently
+        boards.append(b)
     names = ['teamNS', 'Team (A)', 'x', 'NS-1', 'a b', 'E/W', 'ſtrange']
     return {'boards': boards, 'teams': {'NS': rng.choice(names), 'EW': rng.choice(names)}}
 
